@@ -128,12 +128,7 @@ def get_paths_facts(fn):
             scope.append("nested " + type(n).__name__ + " " + getattr(n, "name", "<lambda>"))
         if isinstance(n, (ast.Global, ast.Nonlocal)):
             scope.append(type(n).__name__.lower() + " " + ",".join(n.names))
-        if isinstance(n, ast.Attribute):
-            root, attrs = chain_of(n)
-            if root == conn:
-                # only the outermost attribute of a chain is recorded
-                pass
-    # outermost chains: walk with parent links
+    # attribute chains: only the outermost attribute of a chain is recorded (walk with parent links)
     parents = {}
     for n in ast.walk(fn):
         for c in ast.iter_child_nodes(n):
